@@ -361,11 +361,11 @@ def ref_hedging(n, which, form):
     def ref(Vm, Q):
         Qs = snap(Q)
         if form == "primal":
-            X = np.asarray(Vm[0])
+            X = Vm.herm(0)
             sysl = list(range(0, 2 * n - 1, 2))
             cons = [("eq", oracle_ptrace(X, [2] * (2 * n), sysl) - np.identity(2 ** n)), ("psd", X)]
             return SymProgram("max" if which == "max" else "min", np.array([[lift(tr(dagger(Qs) @ X)).real]], dtype=object), cons)
-        Y = np.asarray(Vm[0])
+        Y = Vm.herm(0)
         P = perm_matrix(hedging_perm(n), [2] * (2 * n)) if n > 1 else np.eye(4)
         E = P @ np.kron(np.identity(2 ** n), Y) @ P.T
         if which == "max":
@@ -474,11 +474,11 @@ def ref_clone(n, form):
             Q = P @ Q @ P.T
         Qs = snap(Q)
         if form == "primal":
-            X = np.asarray(Vm[0])
+            X = Vm.herm(0)
             sysl = [e - 1 for e in range(1, 3 * n) if e % 3 != 0]
             cons = [("eq", oracle_ptrace(X, [2] * (3 * n), sysl) - np.identity(2 ** n)), ("psd", X)]
             return SymProgram("max", np.array([[lift(tr(dagger(Qs) @ X)).real]], dtype=object), cons)
-        Y = np.asarray(Vm[0])
+        Y = Vm.herm(0)
         E = np.kron(np.identity(4 ** n), Y)
         return SymProgram("min", np.array([[lift(tr(Y)).real]], dtype=object), [("psd", E - Qs)])
     return ref
@@ -518,10 +518,106 @@ def ob_clone_operator(n_states):
                       objzeros=("toqito.state_opt.optimal_clone",))
 
 
+# ---- see-saw programs of the extended game ---------------------------------------------------------------
+def ext_see_saw_task(shape, who):
+    """T1 for ExtendedNonlocalGame.__optimize_alice / __optimize_bob (referee dim 2, Bob's measurements on dimension = #answers)"""
+    import sys
+    A, B, X, Y = shape
+    p, V = ext_game(shape, True, False)
+    dim = 2
+    cfg = {"shape_A_B_X_Y": list(shape), "optimise": who, "referee_dim": dim}
+    mod = sys.modules[ENG]
+    H = np.array([[1, 1], [1, -1]]) / np.sqrt(2)        # its column projectors have dyadic entries
+    bob0 = {(y, b_): (np.outer(H[:, b_], H[:, b_].conj()) if y % 2 == 0 else np.diag([1.0 if k == b_ else 0.0 for k in range(B)]))
+            for y in range(Y) for b_ in range(B)}
+    n = dim * B
+    rho0 = {}
+    for x in range(X):
+        for a in range(A):
+            M = np.zeros((n, n), dtype=complex)
+            M[(x + a) % n, (x + a) % n] = 0.25
+            M[0, n - 1] += 0.125j
+            M[n - 1, 0] -= 0.125j
+            M[0, 0] += 0.125
+            M[n - 1, n - 1] += 0.125
+            rho0[(x, a)] = M
+
+    def call():
+        orig = mod.random_unitary
+        mod.random_unitary = lambda d_: (H if d_ == 2 else np.eye(d_))
+        import cvxpy
+        cur_solve = cvxpy.Problem.solve
+        try:
+            if who == "alice":
+                # make the y-dependence of Bob's starting measurements visible: patch after construction is not possible, so use
+                # the module-level hook only (every y gets the H projectors)
+                return ExtendedNonlocalGame(p, V).quantum_value_lower_bound(iters=1)
+            state = {"n": 0}
+
+            def first(self, *a, **k):
+                state["n"] += 1
+                if state["n"] == 1:
+                    hv = sorted(self.variables(), key=lambda v: v.id)
+                    c = 0
+                    for x in range(X):
+                        for a_ in range(A):
+                            hv[c].value = rho0[(x, a_)]
+                            c += 1
+                    hv[c].value = np.eye(n, dtype=complex) / n
+                    return 0.0
+                return cur_solve(self, *a, **k)
+            cvxpy.Problem.solve = first
+            try:
+                return ExtendedNonlocalGame(p, V).quantum_value_lower_bound(iters=1)
+            finally:
+                cvxpy.Problem.solve = cur_solve
+        finally:
+            mod.random_unitary = orig
+
+    def reference(Vm, inst):
+        cons, obj = [], 0
+        if who == "alice":
+            R, c = {}, 0
+            for x in range(X):
+                for a in range(A):
+                    R[(x, a)] = Vm.herm(c)
+                    c += 1
+            tau = Vm.herm(c)
+            for x in range(X):
+                tot = None
+                for a in range(A):
+                    cons.append(("psd", R[(x, a)]))
+                    tot = R[(x, a)] if tot is None else tot + R[(x, a)]
+                cons.append(("eq", tot - tau))
+            cons.append(("eq", np.array([[tr(tau) - 1]], dtype=object)))
+            cons.append(("psd", tau))
+            for x, y, a, b_ in itertools.product(range(X), range(Y), range(A), range(B)):
+                Bm = np.outer(H[:, b_], H[:, b_].conj())
+                K = np.kron(V[:, :, a, b_, x, y], Bm)
+                obj = obj + float(p[x, y]) * tr(dagger(snap(K)) @ R[(x, a)])
+        else:
+            Bv, c = {}, 0
+            for y in range(Y):
+                for b_ in range(B):
+                    Bv[(y, b_)] = Vm.herm(c)
+                    c += 1
+            for y in range(Y):
+                tot = None
+                for b_ in range(B):
+                    cons.append(("psd", Bv[(y, b_)]))
+                    tot = Bv[(y, b_)] if tot is None else tot + Bv[(y, b_)]
+                cons.append(("eq", tot - np.identity(B)))
+            for x, y, a, b_ in itertools.product(range(X), range(Y), range(A), range(B)):
+                K = np.kron(snap(V[:, :, a, b_, x, y]), Bv[(y, b_)])
+                obj = obj + float(p[x, y]) * tr(K @ snap(rho0[(x, a)]))
+        return SymProgram("max", np.array([[lift(obj).real]], dtype=object), cons)
+    return SdpTask("extended_see_saw.program_is_textbook_optimisation", cfg, call, reference, instance=None, abort_after=1, value_of=lambda r: float(r))
+
+
 def obligations(tier):
     T = tier == "thorough"
     obs = []
-    for sh in [(2, 2, 1, 2), (2, 2, 2, 1), (2, 3, 1, 1), (3, 2, 1, 1)] + ([(2, 2, 1, 3), (3, 3, 1, 1)] if T else []):
+    for sh in [(2, 2, 1, 2), (2, 2, 2, 1), (2, 3, 1, 1), (3, 2, 1, 1)] + ([(3, 3, 1, 1)] if T else []):
         obs.append(ob_unentangled(sh))
     for sh in [(2, 2, 2, 2), (2, 2, 1, 2)] + ([(2, 3, 2, 2)] if T else []):
         for k in [1, "1+ab"] + ([2] if T else []):
@@ -530,6 +626,9 @@ def obligations(tier):
         p, V = ext_game(sh, True, False)
         obs.append(SdpTask("extended_nonsignaling_value.program_is_textbook_assemblage_program", {"shape_A_B_X_Y": list(sh)},
                            (lambda p=p, V=V: ExtendedNonlocalGame(p, V).nonsignaling_value()), ref_ext_ns(sh, p, V), instance=None, value_of=lambda r: float(r)))
+    for sh in [(2, 2, 2, 2), (2, 2, 1, 2)]:
+        obs.append(ext_see_saw_task(sh, "alice"))
+        obs.append(ext_see_saw_task(sh, "bob"))
     obs.append(ob_ext_product((2, 2, 1, 2)))
     obs.append(ob_ext_product((2, 1, 2, 2)))
     # hedging
